@@ -467,3 +467,47 @@ def close3(ctx, rule="CLOSE-3"):
     ctx.check(bool(ok_targets) and not bad, rule, "a failed finish leaves the finisher armed", "success edge(s) bb%s, re-arm in bb%s" % (sorted(ok_targets), sorted(rearm)),
               "Package::flush can return after Finish::finish failed without putting the finisher back: the next flush() returns Ok without saving the string pool / summary "
               "(failing history: insert rows; flush() fails on a write; flush() again -> Ok; reopen shows empty strings)", f.loc(), fn=f.name, key=rule + "|flush")
+
+
+ADAPTER = re.compile(r"(BufWriter::<W>::(new|with_capacity)|LineWriter::<W>::(new|with_capacity))$")
+
+
+def adapter_sites(prog, f):
+    """[(creation block, ok, why)] for every std buffering writer created in f: its Drop flushes and discards the error, so every path from the creation
+    to a return must pass an explicit flush()/into_inner() on it whose result is not discarded"""
+    from ..flow import derived_locals
+    from .errs import classify
+    out = []
+    du = DefUse(f)
+    for b, t in f.calls():
+        if not ADAPTER.search(t.get("callee") or "") and not ADAPTER.search(t.get("resolved") or ""):
+            continue
+        L = t["dest"]["l"]
+        der = derived_locals(f, {L})
+        fl = set()
+        for bb, tt in f.calls():
+            n = tt.get("callee") or ""
+            if (n.endswith("Write::flush") or n.endswith("BufWriter::<W>::into_inner") or n.endswith("LineWriter::<W>::into_inner")) and tt["args"] and tt["args"][0].get("pl") and tt["args"][0]["pl"]["l"] in der:
+                tags = {"returned"} if tt["dest"]["l"] == 0 else classify(f, du, tt["dest"]["l"])
+                if tags & {"propagated", "returned", "rethrown", "unwrapped"}:
+                    fl.add(bb)
+        # error returns that happen while the adapter is alive are fine (the caller learns about the failure); success returns must have flushed
+        resid = {bb for bb, tt in f.calls() if (tt.get("callee") or "").endswith("FromResidual::from_residual")}
+        bad = set(f.returns()) & cfg.reachable(f, t["succ"][0], avoid=fl | resid) if t.get("succ") else set()
+        out.append((b, not bad, "flushed explicitly on every successful path" if not bad else "a successful path drops the adapter without an explicit, checked flush"))
+    return out
+
+
+def adapter_drop(ctx, rule="ADAPTER-DROP"):
+    prog = ctx.prog
+    ctx.rule(rule, "a std::io::BufWriter / LineWriter created in msi is explicitly flushed (or unwrapped with into_inner) with the result checked on every successful path before it "
+                   "goes out of scope: its destructor flushes too, but throws the error away, so the data may not have reached the stream although every call returned Ok")
+    n = 0
+    for f in sorted(prog.fns.values(), key=lambda x: x.name):
+        if f.crate != "msi":
+            continue
+        for (b, ok, why) in adapter_sites(prog, f):
+            n += 1
+            ctx.check(ok, rule, "%s: buffering adapter" % short(f.name), why, "%s creates a buffering writer and %s: a write error surfacing in the destructor is lost and flush() still reports Ok" % (
+                short(f.name), why), f.loc(f.blocks[b]["term"].get("sp")), fn=f.name, key="%s|%s" % (rule, short(f.name)))
+    ctx.ok(rule, "buffering adapters in msi", "%d site(s)" % n)
